@@ -1058,6 +1058,7 @@ def parse_tree_to_objgraph(
                 # (remove all of them, not only the model with errors,
                 # since, models with errors may be included in other models)
                 remove_models_from_repositories(models, models)
+                _restore_user_attr_methods_of_models(models)
                 raise
 
         if metamodel.textx_tools_support and type(model) not in PRIMITIVE_PYTHON_TYPES:
@@ -1153,6 +1154,22 @@ def _remove_all_affected_models_in_construction(model):
         filter(lambda x: hasattr(x, "_tx_reference_resolver"), all_affected_models)
     )
     remove_models_from_repositories(all_affected_models, models_to_be_removed)
+    _restore_user_attr_methods_of_models(models_to_be_removed)
+
+
+def _restore_user_attr_methods_of_models(models):
+    """
+    Called when model loading fails. Each of the given models was built by
+    its own parser which replaced the attr methods of the user classes and
+    would have restored them at the end of the model construction. That end
+    will never come, so restore them now (parsers which have restored already
+    are not affected).
+    """
+    # The parsers are collected first: reading an attribute of a model
+    # whose root is a user class instance may need the replaced methods.
+    parsers = [m._tx_parser for m in models if hasattr(m, "_tx_parser")]
+    for a_parser in parsers:
+        a_parser._restore_user_attr_methods()
 
 
 class ReferenceResolver:
